@@ -2130,7 +2130,16 @@ class ExpressionEvaluator(Parser):
             if operator.token == "?":
                 condition = expr
                 false_result = rhs
-                expr = true_result if condition else false_result
+                # The usual arithmetic conversions apply to the second and
+                # third operands, whichever of them is selected.
+                unsigned = isinstance(true_result, np.uint64) or isinstance(
+                    false_result,
+                    np.uint64,
+                )
+                expr = self.__make_value(
+                    int(true_result if condition else false_result),
+                    unsigned,
+                )
             else:
                 expr = self.__apply_binary_op(operator.token, expr, rhs)
 
@@ -2156,18 +2165,35 @@ class ExpressionEvaluator(Parser):
             return exprs
 
     @staticmethod
+    def __make_value(value, unsigned):
+        """
+        Reduce an integer modulo 2**64 and return it as a uintmax_t
+        (np.uint64) if unsigned, or as an intmax_t (np.int64) otherwise.
+        The preprocessor evaluates expressions in these two types only.
+        """
+        value &= 0xFFFFFFFFFFFFFFFF
+        if unsigned:
+            return np.uint64(value)
+        if value >= 0x8000000000000000:
+            value -= 0x10000000000000000
+        return np.int64(value)
+
+    @staticmethod
     def __apply_unary_op(op, operand):
         """
         Apply the specified unary operator: op operand
         """
+        make_value = ExpressionEvaluator.__make_value
+        unsigned = isinstance(operand, np.uint64)
+        value = int(operand)
         if op == "-":
-            return -operand
+            return make_value(-value, unsigned)
         elif op == "+":
-            return +operand
+            return make_value(value, unsigned)
         elif op == "!":
-            return not operand
+            return make_value(int(value == 0), False)
         elif op == "~":
-            return ~operand
+            return make_value(~value, unsigned)
         else:
             raise ValueError("Not a valid unary operator.")
 
@@ -2176,42 +2202,70 @@ class ExpressionEvaluator(Parser):
         """
         Apply the specified binary operator: lhs op rhs
         """
+        make_value = ExpressionEvaluator.__make_value
+        a = int(lhs)
+        b = int(rhs)
+
+        # Logical operators compare each operand against zero and yield
+        # an int that is exactly 0 or 1.
         if op == "||":
-            return lhs or rhs
+            return make_value(int(a != 0 or b != 0), False)
         elif op == "&&":
-            return lhs and rhs
-        elif op == "|":
-            return lhs | rhs
+            return make_value(int(a != 0 and b != 0), False)
+
+        # The type of a shift is the type of its left operand.
+        # Shift counts outside of [0, 64) are undefined in C; yield 0.
+        if op == "<<" or op == ">>":
+            unsigned = isinstance(lhs, np.uint64)
+            if not 0 <= b < 64:
+                return make_value(0, unsigned)
+            if op == "<<":
+                return make_value(a << b, unsigned)
+            return make_value(a >> b, unsigned)
+
+        # Usual arithmetic conversions: if either operand is unsigned, the
+        # other operand is converted to unsigned.
+        unsigned = isinstance(lhs, np.uint64) or isinstance(rhs, np.uint64)
+        if unsigned:
+            a &= 0xFFFFFFFFFFFFFFFF
+            b &= 0xFFFFFFFFFFFFFFFF
+
+        if op == "|":
+            return make_value(a | b, unsigned)
         elif op == "^":
-            return lhs ^ rhs
+            return make_value(a ^ b, unsigned)
         elif op == "&":
-            return lhs & rhs
+            return make_value(a & b, unsigned)
         elif op == "==":
-            return lhs == rhs
+            return make_value(int(a == b), False)
         elif op == "!=":
-            return lhs != rhs
+            return make_value(int(a != b), False)
         elif op == "<":
-            return lhs < rhs
+            return make_value(int(a < b), False)
         elif op == "<=":
-            return lhs <= rhs
+            return make_value(int(a <= b), False)
         elif op == ">":
-            return lhs > rhs
+            return make_value(int(a > b), False)
         elif op == ">=":
-            return lhs >= rhs
-        elif op == "<<":
-            return lhs << rhs
-        elif op == ">>":
-            return lhs >> rhs
+            return make_value(int(a >= b), False)
         elif op == "+":
-            return lhs + rhs
+            return make_value(a + b, unsigned)
         elif op == "-":
-            return lhs - rhs
+            return make_value(a - b, unsigned)
         elif op == "*":
-            return lhs * rhs
-        elif op == "/":
-            return lhs // rhs  # force integer division
-        elif op == "%":
-            return lhs % rhs
+            return make_value(a * b, unsigned)
+        elif op == "/" or op == "%":
+            # Division by zero is undefined in C; yield 0.
+            if b == 0:
+                return make_value(0, unsigned)
+            # C division truncates toward zero, and the remainder takes
+            # the sign of the dividend.
+            quotient = abs(a) // abs(b)
+            if (a < 0) != (b < 0):
+                quotient = -quotient
+            if op == "/":
+                return make_value(quotient, unsigned)
+            return make_value(a - quotient * b, unsigned)
         else:
             raise ValueError("Not a binary operator.")
 
